@@ -1,13 +1,13 @@
 package hx
 
 import (
-	"strings"
-	"sort"
 	"crypto/sha256"
 	"encoding/hex"
 	"encoding/json"
 	"fmt"
 	"math/rand"
+	"sort"
+	"strings"
 	"sync"
 	"time"
 
@@ -281,6 +281,17 @@ func (c16) Run(c *Ctx, i int) CaseResult {
 		ops[a] = map[string]interface{}{"operationName": "Near", "query": text, "variables": pr[0]}
 		ops[b] = map[string]interface{}{"operationName": "Near", "query": text, "variables": pr[1]}
 		names[a], names[b] = "Near", "Near"
+	}
+	if cached && r.Intn(3) == 0 {
+		// several members that are ONE document (and so one persisted-query hash) and differ in the operation they name
+		doc := `query First { me { firstName } } query Second { allUsers { lastName } } query Third { topPhoto { url likes } }`
+		sum := sha256.Sum256([]byte(doc))
+		for j := 0; j < k; j++ {
+			name := []string{"First", "Second", "Third"}[r.Intn(3)]
+			ops[j] = map[string]interface{}{"operationName": name, "query": doc,
+				"extensions": map[string]interface{}{"persistedQuery": map[string]interface{}{"version": 1, "sha256Hash": hex.EncodeToString(sum[:])}}}
+			names[j] = name
+		}
 	}
 	// the completion order
 	order := make([]int, k)
